@@ -60,6 +60,26 @@ static bool life_filter(char const* s)
     }
 }
 
+// Busy samples of the wait predicate are unbounded in number (the caller polls); a busy sample that
+// repeats the value this OS thread logged last is a no-op of the model and is not recorded.  Every
+// returning sample (count <= self) and every change of the sampled value is recorded.
+static thread_local std::uint64_t tl_last_sample = ~0ull;
+static void life_sink(int phase, char const* site, void const* obj, std::uint64_t a, std::uint64_t b) noexcept
+{
+    if (phase == 2 && e2::tl_holding && site[0] == 'g' && site[4] == 's')
+    {
+        bool const returning = (a >> 1) <= (a & 1);
+        if (!returning && a == b && a == tl_last_sample)
+        {
+            e2::tl_holding = false;
+            e2::unlock();
+            return;
+        }
+        tl_last_sample = a;
+    }
+    e2::sink(phase, site, obj, a, b);
+}
+
 static std::vector<std::string> g_monitor;
 static std::atomic<bool> g_mon_lock{false};
 static void monitor(std::string s)
@@ -80,6 +100,9 @@ static std::vector<tinfo>* g_tasks = nullptr;
 static std::atomic<long> g_ids{0}, g_done{0}, g_entered{0};
 static std::atomic<long> g_waits{0};
 static int g_maxdepth = 2, g_width = 2;
+// while a task is blocked in wait() nothing of low priority is submitted: the polling task is
+// re-queued with normal/boosted priority and would starve low-priority work on its worker forever
+static std::atomic<bool> g_no_low{false};
 static constexpr long max_tasks = 400000;
 
 static void* self_obj()
@@ -158,7 +181,9 @@ static ex::thread_pool_scheduler sched_with(rng& r, bool& nostack)
     switch (r.below(8))
     {
     case 0: s = ex::with_priority(s, pika::execution::thread_priority::high); break;
-    case 1: s = ex::with_priority(s, pika::execution::thread_priority::low); break;
+    case 1:
+        if (!g_no_low.load()) s = ex::with_priority(s, pika::execution::thread_priority::low);
+        break;
     case 2: s = ex::with_stacksize(s, pika::execution::thread_stacksize::medium); break;
     case 3:
         s = ex::with_stacksize(s, pika::execution::thread_stacksize::nostack);
@@ -262,7 +287,7 @@ static void watchdog()
     while (!g_watch_stop.load())
     {
         std::this_thread::sleep_for(std::chrono::milliseconds(20));
-        if (e2::g_overflow.load()) finish("livelock");
+        if (e2::g_overflow.load()) finish("overflow");
         std::size_t logsz = e2::g_log->size();
         long d = g_done.load(), st = g_stage.load(), ids = g_ids.load();
         // A hang is declared only from state, never from elapsed time: neither the event log, nor the
@@ -306,7 +331,7 @@ static void finish(char const* status)
     {
         for (;;) std::this_thread::sleep_for(std::chrono::seconds(1));
     }
-    bool ok = std::string(status) == "ok";
+    bool ok = std::string(status) == "ok" || std::string(status) == "overflow";
     if (!ok)
     {
         long n = g_ids.load();
@@ -475,11 +500,15 @@ static void run_incarnation(rng& r, int inc, int force_style)
         case 4: do_wait_external(); break;
         case 5:
         {
+            join_helpers();
+            do_wait_external();
+            g_no_low.store(true);
             long id = new_task(-1);
             std::uint64_t ws = r.next();
             ex::start_detached(ex::schedule(ex::thread_pool_scheduler{}) | ex::then([=] { waiter_task(id, ws); }));
             sub_done(id);
             do_wait_external();    // at most one waiting task at a time
+            g_no_low.store(false);
             break;
         }
         default:
@@ -598,6 +627,7 @@ int main(int argc, char** argv)
     g_tasks = new std::vector<tinfo>(max_tasks);
     e2::g_filter = &life_filter;
     e2::install(g_seed, perturb);
+    pika::verif::sink.store(&life_sink);
     std::thread wd(watchdog);
     wd.detach();
 
